@@ -28,6 +28,7 @@ import Rend.Props.C12
 import Rend.Props.C14
 import Rend.Proofs.KeyLocal
 import Rend.Proofs.SerialMR
+import Rend.Proofs.ChunkedSerial
 
 namespace Rend.Props.C03
 open Rend
@@ -242,6 +243,41 @@ theorem C03_linearizable_shared_reads (now bits : Nat) (ports : Nat → Port) (c
       c'.w.l2 = specEnd now w.l2 (actsOf ports cmds (Conc.acqOrder sched)) ∧
       CacheInv now c'.w :=
   Conc.linearizable_mr now _ ⟨hk, htt, hrd, fun i j h => by simp only at h ⊢; rw [h]⟩ w hinv sched c' hex hquiet
+
+/-- Connections on a chunked L1-only deployment: the lock stripe is `stripeOf bits key`. -/
+def chunkedThreads (bits : Nat) (cmds : Nat → Cmd) (keys : Nat → Bytes) : Nat → Conc.ChThread :=
+  fun i => { cmd := cmds i, key := keys i, stripe := stripeOf bits (keys i) }
+
+/-- **Serializability with a chunked L1** (L1-only deployment, exclusive stripe locks).  The
+    chunking handler spreads a value over a metadata entry and numbered chunks and talks to the
+    backend many times per command; still, for EVERY admitted schedule of any number of connections
+    with single-key commands that ends with nobody inside a critical section, the backend holds
+    what running the commands whole, one after another in lock-acquisition order, leaves, and the
+    commands, listed in that order, returned and emitted exactly what that sequential run does.
+    (Footprint: `l1only_chunked_footLocal` from C04's `Derived`; footprints of different client
+    keys are disjoint: `chunkFoot_disjoint`.) -/
+theorem C03_serializable_chunked (now bits : Nat) (cmds : Nat → Cmd) (keys : Nat → Bytes)
+    (hk : ∀ i, cmdKey (cmds i) = some (keys i)) (w : World) (sched : List Conc.Step) (c' : Conc.Conf (HRes Unit))
+    (hex : Conc.ExecF now (fun i => (chunkedThreads bits cmds keys i).toF now) (Conc.Conf.init w) sched c')
+    (hquiet : ∀ i p evs, c'.ts i ≠ .running p evs) :
+    c'.w = Conc.seqEndF now (fun i => (chunkedThreads bits cmds keys i).toF now) w (Conc.acqOrder sched) ∧
+    (Conc.acqOrder sched).map c'.ts =
+      (Conc.seqObsF now (fun i => (chunkedThreads bits cmds keys i).toF now) w (Conc.acqOrder sched)).map
+        (fun o => Conc.TState.done o.1 o.2) :=
+  Conc.serializable_chunked_obs now (chunkedThreads bits cmds keys) hk
+    (fun i j h => by simp only [chunkedThreads] at h ⊢; rw [h]) w sched c' hex hquiet
+
+/-- Non-vacuity (chunked): `set a` and `delete a` — the first connection's acquisition is admitted,
+    the second one cannot enter while the first is inside; a connection on another stripe can. -/
+example : ∀ c1, Conc.Step1F 100 (fun i => (chunkedThreads 3 (fun i => if i = 0 then .store .set { key := [97], data := [1] } else .delete { key := [97] })
+      (fun _ => [97]) i).toF 100) (Conc.Conf.init {}) (.acq 0) c1 →
+    ∀ c2, ¬ Conc.Step1F 100 (fun i => (chunkedThreads 3 (fun i => if i = 0 then .store .set { key := [97], data := [1] } else .delete { key := [97] })
+      (fun _ => [97]) i).toF 100) c1 (.acq 1) c2 := by
+  intro c1 h1 c2 h2
+  cases h1 with
+  | acq _ _ _ =>
+    cases h2 with
+    | acq _ _ hfree => exact hfree 0 _ _ (Conc.set_self _ _ _) rfl
 
 /-- Non-vacuity: two gets of one key under shared read locks may both be inside their critical
     sections (admitted), a set may not join them. -/
